@@ -561,7 +561,9 @@ fn run(cfgi: usize, w: &mut Tape, env: &EnvRef) -> RunResult {
         }
         env.probe("stored-ok");
         // a later store with the same affected instance UID text may overwrite this one
-        let overwritten = r.stores.iter().enumerate().any(|(j, o)| j > k && o.affected_instance == st.affected_instance && matches!(r.responses[j], Some((0, _, _))));
+        // (after a reported disk failure also by a later store that was not acknowledged: the tool truncates the
+        // file when it starts to write)
+        let overwritten = r.stores.iter().enumerate().any(|(j, o)| j > k && o.affected_instance == st.affected_instance && (disk_failed || matches!(r.responses[j], Some((0, _, _)))));
         if overwritten {
             continue;
         }
